@@ -182,8 +182,11 @@ def averaging_rules(ctx, rule):
     # the averaged group is appended once to the average container
     apps = [c for c in calls_in(fn, nested=False) if last_attr(c) == 'append'
             and norm(c.func.value).endswith('.groups')]
+    # (what is appended is the quotient: the accumulator divided in place, the
+    # local the quotient is bound to, or the quotient itself)
+    quotient = {acc} if isinstance(div, ast.AugAssign) else {norm(div.targets[0]), norm(div.value)}
     ctx.ob(rule('R2'), 'average:appended-once',
-           len(apps) == 1 and norm(apps[0].args[0]) == acc,
+           len(apps) == 1 and norm(apps[0].args[0]) in quotient,
            'each averaged group is appended exactly once to the average container', mc,
            apps[0] if apps else fn)
     return dict(prog=prog, mc=mc)
